@@ -7,7 +7,7 @@ from typing import Any, Dict, List, Optional, Set, Tuple
 from ..core import AnalysisError, Report
 from ..pycfg import build_py_cfg
 from ..pysubst import Outcome, method_outcomes
-from ..pyfacts import Repo, calls, dotted, norm, raise_guards, raised_class, walk_no_nested
+from ..pyfacts import Repo, calls, dotted, eval_int_expr, norm, raise_guards, raised_class, walk_no_nested
 
 D = 'flipjump/interpreter/io_devices/'
 PACKERS = [(D + 'FixedIO.py', 'FixedIO'), (D + 'StandardIO.py', 'StandardIO'), (D + 'KeyboardIO.py', 'KeyboardIO'),
@@ -55,7 +55,7 @@ def rule_pack(rep: Report, repo: Repo) -> None:
         for o in outs:
             if f'1 + {cnt} != 8' in o.conds:
                 n_keep += 1
-                good = o.state == {acc: full, cnt: f'1 + {cnt}'} and not o.effects and o.result == ('fall', None)
+                good = o.state == {acc: full, cnt: f'1 + {cnt}'} and not o.effects and o.result in (('fall', None), ('return', None), ('return', 'None'))
                 ok = ok and good
                 if not good:
                     why.append(f'no-flush path: state {o.state} effects {o.effects} result {o.result}')
@@ -74,17 +74,45 @@ def rule_pack(rep: Report, repo: Repo) -> None:
                   site, expected='lsb-first accumulate, flush the completed byte at 8, reset')
 
 
+def _fold(text: Optional[str], env: Dict[str, int]) -> Optional[int]:
+    """fold an outcome expression (text over the entry state) for given integer values; `X[0]` of a source reads as the name `_first`."""
+    if text is None:
+        return None
+    try:
+        e = ast.parse(text, mode='eval').body
+    except SyntaxError:
+        return None
+
+    class First(ast.NodeTransformer):
+        def visit_Subscript(self, node: ast.Subscript) -> ast.AST:
+            if isinstance(node.slice, ast.Constant) and node.slice.value == 0:
+                return ast.Name(id='_first', ctx=ast.Load())
+            return self.generic_visit(node)
+    try:
+        return eval_int_expr(ast.fix_missing_locations(First().visit(e)), env)
+    except AnalysisError:
+        return None
+
+
 def _unpack_facts(outs: List[Outcome]) -> Dict[str, Any]:
-    import re
+    """the steady-state path of a read_bit: its only condition is `count != 0` for some attribute; the byte register is the other
+    attribute that path updates. Found by shape and judged by folding - `& 1` / `% 2`, `>> 1` / `// 2` read alike."""
     f: Dict[str, Any] = dict(cnt=None, byte=None)
     for o in outs:
-        if len(o.conds) == 1:
-            m = re.fullmatch(r'0 != (self\.\w+)', o.conds[0])
-            if m and o.result[0] == 'return':
-                f['cnt'] = m.group(1)
-                r = re.fullmatch(r'1 & (self\.\w+) == 1', o.result[1] or '')
-                f['byte'] = r.group(1) if r else None
-                f['steady'] = o
+        if len(o.conds) == 1 and o.result[0] == 'return':
+            try:
+                c = ast.parse(o.conds[0], mode='eval').body
+            except SyntaxError:
+                continue
+            if isinstance(c, ast.Compare) and len(c.ops) == 1 and isinstance(c.ops[0], (ast.NotEq, ast.Gt, ast.Lt)):
+                sides = [c.left, c.comparators[0]]
+                attr = [norm(x) for x in sides if isinstance(x, ast.Attribute)]
+                zero = [x for x in sides if isinstance(x, ast.Constant) and x.value == 0]
+                if len(attr) == 1 and len(zero) == 1:
+                    f['cnt'] = attr[0]
+                    others = [k for k in o.state if k != attr[0]]
+                    f['byte'] = others[0] if len(others) == 1 else None
+                    f['steady'] = o
     return f
 
 
@@ -101,21 +129,29 @@ def rule_unpack(rep: Report, repo: Repo) -> None:
         ok, why = False, f'no steady-state path (count != 0 -> return byte & 1) found among {[o.conds for o in outs]}'
         if cnt and byte:
             st = f['steady']
-            s_steady = st.state == {byte: f'{byte} >> 1', cnt: f'{cnt} - 1'} and not st.effects
+            # folded on a grid of (byte, count): the bit handed out is the lowest bit, the register loses it, the count drops by one
+            grid = [(b, c) for b in (0, 1, 2, 0x5A, 0xA5, 0xFF) for c in (1, 3, 8)]
+            s_steady = set(st.state) == {byte, cnt} and not st.effects and all(
+                _fold(st.result[1], {byte: b, cnt: c}) == (b & 1) and _fold(st.state[byte], {byte: b, cnt: c}) == b >> 1
+                and _fold(st.state[cnt], {byte: b, cnt: c}) == c - 1 for b, c in grid)
             refills = [o for o in outs if f'0 == {cnt}' in o.conds and o.result[0] == 'return']
             s_refill = len(refills) == 1
             src = None
             if s_refill:
-                import re
                 o = refills[0]
-                m = re.fullmatch(r'1 & (.+)\[0\] == 1', o.result[1] or '')
-                src = m.group(1) if m else None
-                want = {byte: f'{src}[0] >> 1', cnt: '7'}
-                if src and src.startswith('self.'):
-                    want[src] = f'{src}[1:]'           # a buffered source is advanced by exactly the byte just taken
-                # an unbuffered source is ONE read whose result is bound once (`_v1 := stdin.read(1)...`); nothing else happens
+                # the source is whatever the result indexes at [0]
+                subs = [norm(x.value) for x in ast.walk(ast.parse(o.result[1] or '0', mode='eval')) if isinstance(x, ast.Subscript)
+                        and isinstance(x.slice, ast.Constant) and x.slice.value == 0]
+                src = subs[0] if len(set(subs)) == 1 else None
                 src_read = [e for e in o.effects if src and e.startswith(f'{src} := ')]
-                s_refill = src is not None and o.state == want and o.effects == src_read and len(src_read) == (0 if src.startswith('self.') else 1)
+                buffered = bool(src) and src.startswith('self.')
+                keys_ok = set(o.state) == ({byte, cnt, src} if buffered else {byte, cnt})
+                vals_ok = src is not None and keys_ok and all(
+                    _fold(o.result[1], {'_first': b}) == (b & 1) and _fold(o.state[byte], {'_first': b}) == b >> 1 and _fold(o.state[cnt], {'_first': b}) == 7
+                    for b in (0, 1, 2, 0x5A, 0xA5, 0xFF))
+                # a buffered source is advanced by exactly the byte just taken; an unbuffered source is ONE read bound once
+                adv_ok = (not buffered) or o.state.get(src) == f'{src}[1:]'
+                s_refill = bool(vals_ok) and adv_ok and o.effects == src_read and len(src_read) == (0 if buffered else 1)
             others = [o for o in outs if o is not st and o not in refills]
             s_rest = all(o.result[0] == 'raise' and not o.state and all(' := ' in e for e in o.effects) and len(o.effects) <= 1
                          and f'0 == {cnt}' in o.conds for o in others)
@@ -144,9 +180,9 @@ def rule_eof(rep: Report, repo: Repo) -> None:
         ok = False
         why = 'no refill path'
         if cnt and len(refills) == 1 and len(raising) == 1:
-            import re
-            m = re.fullmatch(r'1 & (.+)\[0\] == 1', refills[0].result[1] or '')
-            src = m.group(1) if m else '?'
+            subs = [norm(x.value) for x in ast.walk(ast.parse(refills[0].result[1] or '0', mode='eval')) if isinstance(x, ast.Subscript)
+                    and isinstance(x.slice, ast.Constant) and x.slice.value == 0]
+            src = subs[0] if len(set(subs)) == 1 else '?'             # the source is whatever the refill result indexes at [0]
             empty = {f'not {src}', f'0 == len({src})', f'len({src}) < 1', f'len({src}) <= 0'}
             r = raising[0]
             extra = [c for c in r.conds if c != f'0 == {cnt}']
